@@ -390,8 +390,9 @@ def xcheck(prop, nmax=40, timeout=180):
     rows.sort(key=lambda r: len(r["req"]) + len(r["reply"]))
     per_entry = {}
     chosen = []
+    quota = max(4, nmax // max(1, len(set(x["entry"] for x in rows))))
     for r in rows:
-        if per_entry.get(r["entry"], 0) < max(4, nmax // max(1, len(set(x["entry"] for x in rows)))):
+        if per_entry.get(r["entry"], 0) < quota:
             per_entry[r["entry"]] = per_entry.get(r["entry"], 0) + 1
             chosen.append(r)
         if len(chosen) >= nmax:
